@@ -168,17 +168,73 @@ def run_translator(ctx, modules=None):
     return rep
 
 
+def coq_code_only(txt):
+    """Return the text of a .v file with comments (nested, as Coq lexes them) and string literals blanked
+    out, so that a forbidden word can be hidden neither in a string that looks like a comment opener nor behind
+    one.  Inside comments Coq also lexes strings, which is honoured."""
+    out = []
+    i, n, depth = 0, len(txt), 0
+    while i < n:
+        c = txt[i]
+        if c == '"':
+            # string literal (also inside comments); "" is an escaped quote
+            j = i + 1
+            while j < n:
+                if txt[j] == '"':
+                    if j + 1 < n and txt[j + 1] == '"':
+                        j += 2
+                        continue
+                    break
+                j += 1
+            if depth == 0:
+                out.append('""')
+            i = j + 1
+            continue
+        if txt.startswith('(*', i):
+            depth += 1
+            i += 2
+            continue
+        if depth > 0 and txt.startswith('*)', i):
+            depth -= 1
+            i += 2
+            out.append(' ')
+            continue
+        if depth == 0:
+            out.append(c)
+        i += 1
+    if depth != 0:
+        out.append(' Axiom UNTERMINATED_COMMENT ')     # flagged by the gate
+    return ''.join(out)
+
+
+SECTION_ONLY = re.compile(r'^\s*(?:Local\s+|Global\s+)?(Variable|Variables|Hypothesis|Hypotheses|Context)\b', re.M)
+
+
 def gate_scan():
-    """grep the whole development for forbidden vernacular"""
+    """scan the whole development (and the extraction scripts) for forbidden vernacular, on the code text only
+    (comments and strings removed by a real lexer); also Variable/Hypothesis/Context outside a Section."""
     bad = []
-    for p in glob.glob(os.path.join(COQ, '**', '*.v'), recursive=True):
+    files = glob.glob(os.path.join(COQ, '**', '*.v'), recursive=True)
+    files += glob.glob(os.path.join(VERIF, 'ocaml', '*', 'extract.v'))
+    for p in files:
         with open(p) as f:
-            txt = f.read()
-        # strip comments (non-nested is enough for a conservative gate:
-        # anything left inside a nested comment is still flagged)
-        stripped = re.sub(r'\(\*.*?\*\)', ' ', txt, flags=re.S)
-        for m in FORBIDDEN.finditer(stripped):
-            bad.append((os.path.relpath(p, COQ), m.group(0)))
+            code = coq_code_only(f.read())
+        rel = os.path.relpath(p, VERIF)
+        for m in FORBIDDEN.finditer(code):
+            bad.append((rel, m.group(0)))
+        if re.search(r'\bExtract\s+(Constant|Inlined\s+Constant|Inductive)\b', code):
+            bad.append((rel, 'Extract directive outside ExtrOcamlBasic'))
+        # section-only declarations must be inside a Section
+        depth = 0
+        for line in code.splitlines():
+            if re.match(r'^\s*Section\s+\w', line):
+                depth += 1
+            elif re.match(r'^\s*End\s+\w', line) and depth > 0:
+                depth -= 1      # (End of a Module also decrements only if a Section is open: conservative enough)
+            elif depth == 0 and SECTION_ONLY.match(line):
+                bad.append((rel, 'section-only declaration at top level: ' + line.strip()[:60]))
+    if os.path.exists(os.path.join(COQ, 'Makefile.local')) or os.path.exists(os.path.join(COQ, 'Makefile.local-late')):
+        bad.append(('coq/Makefile.local', 'local makefile include'))
     return bad
 
 
@@ -252,16 +308,37 @@ def check_props(ctx, propfile=None):
             ctx.broken.append({'kind': 'build', 'target': propfile, 'error': txt[-1500:]})
         return False
     ctx.discharged = len(names)
-    # Print Assumptions output blocks, in order of the Print commands
-    printed = re.findall(r'^\s*Print Assumptions\s+([A-Za-z0-9_\']+)\s*\.', src, flags=re.M)
-    blocks = re.split(r'(?=^Closed under the global context|^Axioms:|^Section Variables:)', out, flags=re.M)
-    blocks = [b for b in blocks if b.startswith('Closed') or b.startswith('Axioms') or b.startswith('Section')]
+    if not [1 for (k, n) in names if k == 'Theorem']:
+        ctx.broken.append({'kind': 'hygiene', 'error': f'{propfile} states no Theorem'})
+    # Print Assumptions output blocks, in order of the Print commands (commands are looked up in the code text,
+    # not in comments)
+    code = coq_code_only(src)
+    printed = re.findall(r'^\s*Print Assumptions\s+([A-Za-z0-9_\']+)\s*\.', code, flags=re.M)
+    blocks = re.split(r'(?=^Closed under the global context|^Axioms:|^Section Variables:|^Theory:|^Fetching opaque)', out, flags=re.M)
+    blocks = [b for b in blocks if re.match(r'Closed|Axioms|Section|Theory|Fetching', b)]
+    if len(blocks) != len(printed):
+        ctx.broken.append({'kind': 'hygiene', 'error': f'{len(printed)} Print Assumptions commands but {len(blocks)} '
+                           'answers in the compiler output: the assumptions cannot be attributed'})
     axioms_all = set()
     for i, n in enumerate(printed):
         ax = []
-        if i < len(blocks) and not blocks[i].startswith('Closed'):
-            ax = [a for a in re.findall(r'^([A-Za-z_][A-Za-z0-9_\.\']*)\s*:', blocks[i], flags=re.M)
-                  if a not in ('Axioms', 'Variables')]   # the block header `Axioms:` is not an axiom name
+        if i >= len(blocks):
+            ax = ['<no answer captured>']
+        elif not blocks[i].startswith('Closed under the global context'):
+            body = blocks[i].strip().splitlines()
+            for ln in body[1:] if body[0].rstrip().endswith(':') else body:
+                if not ln.strip():
+                    continue
+                m = re.match(r'^([A-Za-z_][A-Za-z0-9_\.\']*)\s*:', ln)
+                if m:
+                    ax.append(m.group(1))
+                elif ln.startswith(' ') or ln.startswith('\t'):
+                    continue            # continuation line of a type
+                else:
+                    # e.g. "f is assumed to be guarded." / "T relies on an unsafe hierarchy." / a Theory: paragraph
+                    ax.append('<unsafe: ' + ln.strip()[:80] + '>')
+            if not ax:
+                ax = ['<unparsed assumptions block>']
         ctx.theorems.append({'name': n, 'axioms': ax})
         axioms_all.update(ax)
     unprinted = [n for (k, n) in names if k == 'Theorem' and n not in printed]
@@ -289,8 +366,7 @@ def coqchk(ctx, timeout=2400):
     m = re.search(r'\* Axioms:(.*?)\n\s*\n\* Constants', summ, flags=re.S)
     axs = [a.strip() for a in (m.group(1) if m else '').splitlines() if a.strip() and a.strip() != '<none>']
     ctx.coqchk['axioms'] = axs
-    foreign = [a for a in axs if not any(a.endswith(s.split('.')[-1]) for s in STD_AXIOMS)
-               and not a.startswith('Coq.') and not a.startswith('Coquelicot.') and not a.startswith('mathcomp.')]
+    foreign = [a for a in axs if not (a.startswith('Coq.') or a.startswith('Coquelicot.'))]
     for sect in ('type-in-type', 'unsafe (co)fixpoints', 'positivity is assumed'):
         mm = re.search(re.escape(sect) + r':(.*?)(?:\n\s*\n|\Z)', summ, flags=re.S)
         if mm and mm.group(1).strip() not in ('<none>', ''):
@@ -465,6 +541,9 @@ def finish(ctx, level='proof', rule='', trusted=None, checker_cmd=None, extra=No
     os.makedirs(os.path.join(VERIF, 'evidence'), exist_ok=True)
     os.makedirs(os.path.join(BUILD, 'replay'), exist_ok=True)
     lines = []
+    if not ctx.replay and ctx.evaluations < 1:
+        ctx.broken.append({'kind': 'harness', 'error': 'the harness explored no case at all (a generator that yields '
+                           'nothing is not a pass)'})
     # broken obligations with no concrete failing input found
     have_input = any(not v['no_failing_input'] for v in ctx.violations)
     if ctx.broken and not have_input:
@@ -512,12 +591,33 @@ def finish(ctx, level='proof', rule='', trusted=None, checker_cmd=None, extra=No
         cov['evaluations'] = max(cov['evaluations'], 1)
     if extra:
         cov.update(extra)
+    # provenance: which tree was checked (a run against a mutated copy must never overwrite the evidence of /repo)
+    try:
+        head = sh(['git', '-C', REPO, 'rev-parse', 'HEAD'])[1].strip()
+        dirty = bool(sh(['git', '-C', REPO, 'status', '--porcelain', '--untracked-files=no'])[1].strip())
+    except Exception:
+        head, dirty = '?', True
+    try:
+        with open(os.path.join(COQ, f'props/Prop_{ctx.prop}.v'), 'rb') as f:
+            prop_sha = hashlib.sha256(f.read()).hexdigest()[:16]
+    except OSError:
+        prop_sha = None
+    cov['provenance'] = {'repo': REPO, 'repo_head': head, 'repo_dirty': dirty, 'prop_file_sha256': prop_sha,
+                         'env': {k: os.environ.get(k) for k in ('SKYLLH_REPO', 'VERIF_NO_COQCHK', 'VERIF_COQ_MEM_KB',
+                                                                 'COQEXTRAFLAGS', 'VERIF_SEED', 'VERIF_TIER')}}
+    if not ctx.assumptions:
+        ctx.assumptions = ([f'axiom (standard library): {a}' for a in getattr(ctx, 'axioms', [])]
+                           + list(trusted or []))
     ev = {
         'property_id': ctx.prop, 'tier': ctx.tier, 'seed': ctx.seed, 'level': level,
         'coverage': cov, 'assumptions': ctx.assumptions,
         'wall_s': round(time.time() - ctx.t0, 2), 'violations': len(ctx.violations),
     }
-    with open(os.path.join(VERIF, 'evidence', f'{ctx.prop}.json'), 'w') as f:
+    evdir = os.path.join(VERIF, 'evidence')
+    if os.path.realpath(REPO) != '/repo' or ctx.replay:
+        evdir = os.path.join(BUILD, 'evidence-other-tree')     # mutated copy / replay: keep evidence/ for /repo
+        os.makedirs(evdir, exist_ok=True)
+    with open(os.path.join(evdir, f'{ctx.prop}.json'), 'w') as f:
         json.dump(ev, f, indent=1, default=str)
     for l in lines:
         print(l)
